@@ -59,7 +59,7 @@ class ExprMixin(object):
       if sort_of(fty) == S:
         return VStr(t)
       v = from_u(t, fty, st)
-      if isinstance(v, VRef):
+      if isinstance(v, VRef) and not spec:
         if fty.kind in ('set', 'dict', 'list', 'vtuple', 'obj', 'callable'):
           st.assume(v.t != NONE)
         if fty.kind in ('list', 'vtuple'):
@@ -251,7 +251,9 @@ class ExprMixin(object):
           i = n_ + i
         for st2, ok in self.fork(st, z3.And(i >= 0, i < n_)):
           if ok:
-            v = from_u(st2.heap.item(base.t, i), base.ty.elem, st2)
+            it = st2.heap.item(base.t, i)
+            st2.assume(st2.heap.lmem(base.t, it))
+            v = from_u(it, base.ty.elem, st2)
             ops.assume_type(v, st2)
             yield st2, note_alloc(v, st2)
           else:
@@ -456,18 +458,18 @@ class ExprMixin(object):
     conds = z3.And([srcp(x)] + [truthy(self.sv(f, c2), c2) for f in g.ifs])
     if identity:
       wit = ufn(fresh_name('compidx'), U, I)
-      st.assume(z3.ForAll([i], z3.Implies(z3.And(i >= 0, i < ln),
+      st.assume(ForAllT([i], z3.Implies(z3.And(i >= 0, i < ln),
                                            z3.And(substitute_pred(conds, x, itf(i)), wit(itf(i)) == i))))
-      st.assume(z3.ForAll([x], z3.Implies(conds, z3.And(wit(x) >= 0, wit(x) < ln, itf(wit(x)) == x))))
+      st.assume(ForAllT([x], z3.Implies(conds, z3.And(wit(x) >= 0, wit(x) < ln, itf(wit(x)) == x))))
       # source sets contain no duplicates => result is duplicate-free when the source is a set
     else:
       img = to_u(self.sv(elt, c2), c2)
       src_of = ufn(fresh_name('compsrc'), I, U)
-      st.assume(z3.ForAll([i], z3.Implies(z3.And(i >= 0, i < ln),
+      st.assume(ForAllT([i], z3.Implies(z3.And(i >= 0, i < ln),
                                            z3.And(substitute_pred(conds, x, src_of(i)),
                                                   itf(i) == z3.substitute(img, (x, src_of(i)))))))
       wit = ufn(fresh_name('compidx'), U, I)
-      st.assume(z3.ForAll([x], z3.Implies(conds, z3.And(wit(x) >= 0, wit(x) < ln, itf(wit(x)) == img))))
+      st.assume(ForAllT([x], z3.Implies(conds, z3.And(wit(x) >= 0, wit(x) < ln, itf(wit(x)) == img))))
     return r
 
   def ev_DictComp(self, n, st):
@@ -522,18 +524,18 @@ class ExprMixin(object):
       oldalloc = st.heap.get('alloc')
       k2 = z3.Const(fresh_name('dk'), U)
       # freshness and injectivity of the per-key sets
-      st.assume(z3.ForAll([k], z3.Implies(domp(k), z3.And(z3.Not(oldalloc(valf(k))), valf(k) != NONE))))
-      st.assume(z3.ForAll([k, k2], z3.Implies(z3.And(domp(k), domp(k2), k != k2), valf(k) != valf(k2))))
+      st.assume(ForAllT([k], z3.Implies(domp(k), z3.And(z3.Not(oldalloc(valf(k))), valf(k) != NONE))))
+      st.assume(ForAllT([k, k2], z3.Implies(z3.And(domp(k), domp(k2), k != k2), valf(k) != valf(k2))))
       inv = ufn(fresh_name('dckey'), U, U)
-      st.assume(z3.ForAll([k], z3.Implies(domp(k), inv(valf(k)) == k)))
+      st.assume(ForAllT([k], z3.Implies(domp(k), inv(valf(k)) == k)))
       isnew = lambda s: z3.And(domp(inv(s)), valf(inv(s)) == s)
       memnew = ufn(fresh_name('dcmem'), U, U, B)
-      st.assume(z3.ForAll([k, e], z3.Implies(domp(k), memnew(valf(k), e) == argp_sub(argp, e, k, c2, self, vnode))))
+      st.assume(ForAllT([k, e], z3.Implies(domp(k), memnew(valf(k), e) == argp_sub(argp, e, k, c2, self, vnode))))
       st.heap = st.heap.with_('mem', lambda s, x: z3.If(isnew(s), memnew(s, x), oldmem(s, x))) \
                        .with_('alloc', lambda o: z3.Or(isnew(o), st_alloc(oldalloc, o)))
     else:
       v = self.sv(vnode, c2)
-      st.assume(z3.ForAll([k], z3.Implies(domp(k), valf(k) == to_u(v, c2))))
+      st.assume(ForAllT([k], z3.Implies(domp(k), valf(k) == to_u(v, c2))))
     st.heap = st.heap.with_('dom', lambda d, x: z3.If(d == r.t, domp(x), olddom(d, x))) \
                      .with_('val', lambda d, x: z3.If(d == r.t, valf(x), oldval(d, x)))
     return r
